@@ -314,6 +314,19 @@ var topRules = []topRule{
 	{name: "if-branches-after-returning-branch", good: "fn f(n: int) -> int { if n == 0 { return 0; } else if n == 1 { 1 } else { 2 } }\nfn main() { println(f(1)); }\n", bad: "fn f(n: int) -> int { if n == 0 { return 0; } else if n == 1 { \"one\" } else { 2 } }\nfn main() { println(f(1)); }\n"},
 	{name: "if-use-after-returning-branch", good: "fn f(n: int) -> int { let v = if n == 0 { return 0; } else { 5 }; v + 1 }\nfn main() { println(f(1)); }\n", bad: "fn f(n: int) -> int { let v = if n == 0 { return 0; } else { 5 }; v + \"s\" }\nfn main() { println(f(1)); }\n"},
 	{name: "try-catch-after-returning-body", good: "fn f(n: int) -> int { let v = try { if n == 0 { return 0; } 3 } catch e { 4 }; v + 1 }\nfn main() { println(f(1)); }\n", bad: "fn f(n: int) -> int { let v = try { if n == 0 { return 0; } 3 } catch e { \"s\" }; v + 1 }\nfn main() { println(f(1)); }\n"},
+	// a bare `none` fits every option type; it must not make the branches that follow it fit each other
+	// (not claimed: a list literal / try whose FIRST element / block is a bare none has the type of that none and
+	// needs an annotation, which is then validated at run time - the analyzer's implicit-any rule, not a leak)
+	{name: "match-arms-after-none-arm", good: "fn f(c: int) -> ?int { match c { 0 => none, 1 => ?1, _ => ?2 } }\nfn main() { println(f(1)); }\n", bad: "fn f(c: int) -> ?int { match c { 0 => none, 1 => ?1, _ => ?\"s\" } }\nfn main() { println(f(1)); }\n"},
+	{name: "match-arms-after-two-none-arms", good: "fn f(c: int) -> ?int { match c { 0 => none, 1 => none, 2 => ?1, _ => ?2 } }\nfn main() { println(f(1)); }\n", bad: "fn f(c: int) -> ?int { match c { 0 => none, 1 => none, 2 => ?1, _ => ?true } }\nfn main() { println(f(1)); }\n"},
+	{name: "match-let-after-none-arm", good: "fn main() { let v = match 1 { 0 => none, 1 => ?1, _ => ?2 }; println(v); }\n", bad: "fn main() { let v = match 1 { 0 => none, 1 => ?1, _ => ?[1] }; println(v); }\n"},
+	{name: "if-branches-after-none-branch", good: "fn f(c: int) -> ?int { if c == 0 { none } else if c == 1 { ?1 } else { ?2 } }\nfn main() { println(f(1)); }\n", bad: "fn f(c: int) -> ?int { if c == 0 { none } else if c == 1 { ?1 } else { ?\"s\" } }\nfn main() { println(f(1)); }\n"},
+	{name: "if-let-after-none-branch", good: "fn main() { let c = 1; let v = if c == 0 { none } else if c == 1 { ?1 } else { ?2 }; println(v); }\n", bad: "fn main() { let c = 1; let v = if c == 0 { none } else if c == 1 { ?1 } else { ?\"s\" }; println(v); }\n"},
+	{name: "if-none-in-the-middle", good: "fn main() { let c = 1; let v = if c == 0 { ?1 } else if c == 1 { none } else { ?2 }; println(v); }\n", bad: "fn main() { let c = 1; let v = if c == 0 { ?1 } else if c == 1 { none } else { ?\"s\" }; println(v); }\n"},
+	{name: "match-none-in-the-middle", good: "fn main() { let v = match 1 { 0 => ?1, 1 => none, _ => ?2 }; println(v); }\n", bad: "fn main() { let v = match 1 { 0 => ?1, 1 => none, _ => ?\"s\" }; println(v); }\n"},
+	{name: "list-elements-after-none-element-unannotated", good: "fn main() { let l = [?1, none, ?2]; println(l); }\n", bad: "fn main() { let l = [?1, none, ?\"s\"]; println(l); }\n"},
+	{name: "unwrap-or-default-type", good: "fn main() { let o: ?int = none; println(o.unwrap_or(5)); }\n", bad: "fn main() { let o: ?int = none; println(o.unwrap_or(\"s\")); }\n"},
+	{name: "return-none-then-mismatch", good: "fn f(c: int) -> ?int { if c == 0 { return none; } ?1 }\nfn main() { println(f(1)); }\n", bad: "fn f(c: int) -> ?int { if c == 0 { return none; } ?\"s\" }\nfn main() { println(f(1)); }\n"},
 	// function types: a function value fits a function type when parameters agree by POSITION (name and type) and the
 	// result agrees; the bad twins differ in exactly one of those
 	{name: "fn-type-argument", good: "fn k(a: int, b: str) -> bool { b.len() > a }\nfn g(h: fn(a: int, b: str) -> bool) -> bool { h(1, \"s\") }\nfn main() { println(g(k)); }\n", bad: "fn k(a: str, b: str) -> bool { b.len() > a.len() }\nfn g(h: fn(a: int, b: str) -> bool) -> bool { h(1, \"s\") }\nfn main() { println(g(k)); }\n"},
